@@ -260,6 +260,30 @@ func refactorSelfTest(p *Prog, c *Check, self string) {
 		Exit    int    `json:"exit"`
 		Alarm   string `json:"alarm,omitempty"`
 	}
+	// only refactorings that touch a file holding a function this check analysed can change its verdict
+	files := map[string]bool{}
+	for _, fn := range p.Funcs {
+		if c.funcs[shortFn(fn)] {
+			if rel, err := filepath.Rel(p.Root, p.fileOf(fn)); err == nil {
+				files[rel] = true
+			}
+		}
+	}
+	var relevant []string
+	for _, pt := range pats {
+		data, _ := os.ReadFile(pt)
+		hit := false
+		for _, m := range regexp.MustCompile(`(?m)^\+\+\+ b/(\S+)`).FindAllStringSubmatch(string(data), -1) {
+			if files[m[1]] {
+				hit = true
+			}
+		}
+		if hit {
+			relevant = append(relevant, pt)
+		}
+	}
+	c.extra["refactorings_total"] = len(pats)
+	pats = relevant
 	results := make([]res, len(pats))
 	var wg sync.WaitGroup
 	sem := make(chan struct{}, 10)
